@@ -99,6 +99,13 @@ func payoutOracle(c *fw.Ctx, s *chain.Sim, pre *chain.Store, parent consensus.St
 			for i, o := range fc.ValidProofOutputs {
 				expect("v1-proof", sp.ParentID.ValidOutputID(i), o)
 			}
+			// … and ONLY those: a proven contract pays none of its missed outputs (it may also be listed as expiring when
+			// the proof lands in the last block of the window)
+			for i := range fc.MissedProofOutputs {
+				if _, extra := created[sp.ParentID.MissedOutputID(i)]; extra {
+					res.Violate(fw.Violation{Key: "c07-payout-extra:v1-proof", What: fmt.Sprintf("contract %v was proven in this block and ALSO paid its missed output %d", sp.ParentID, i), Replay: rp})
+				}
+			}
 		}
 	}
 	for _, e := range p.Supp.ExpiringFileContracts {
@@ -112,6 +119,11 @@ func payoutOracle(c *fw.Ctx, s *chain.Sim, pre *chain.Store, parent consensus.St
 		once(e.ID, "v1-expiry")
 		for i, o := range fc.MissedProofOutputs {
 			expect("v1-expiry", e.ID.MissedOutputID(i), o)
+		}
+		for i := range fc.ValidProofOutputs {
+			if _, extra := created[e.ID.ValidOutputID(i)]; extra {
+				res.Violate(fw.Violation{Key: "c07-payout-extra:v1-expiry", What: fmt.Sprintf("contract %v expired in this block and ALSO paid its valid output %d", e.ID, i), Replay: rp})
+			}
 		}
 	}
 	// v2
